@@ -334,20 +334,20 @@ Section RecordRT.
     pose proof (enc_frame_length fe f). lia.
   Qed.
 
-  Theorem message_roundtrip : forall m,
-    wf_props_desc pf pr pw = true -> wf_message rd wr d pf m = true ->
-    exists b, enc_message fe wr d pf pw m = Some b /\
-              forall rest, dec_message st fa fe rd d pf pr (b ++ rest) = Ok (m, rest).
+  Lemma message_core_roundtrip : forall m,
+    wf_props_desc pf pr pw = true -> wf_message_core rd wr d pf m = true ->
+    exists b, enc_message_core fe wr d pf pw m = Some b /\
+              forall rest, dec_message_core st fa fe rd d pf pr (b ++ rest) = Ok (with_count m 0, rest).
   Proof.
-    intros [i h ex rk body] Hd Hm. unfold wf_message in Hm. cbn [msg_id msg_header msg_exchange msg_rk msg_body] in Hm.
+    intros [i h ex rk body cnt] Hd Hm. unfold wf_message_core in Hm. cbn [msg_id msg_header msg_exchange msg_rk msg_body] in Hm.
     apply andb_true_iff in Hm. destruct Hm as [Hm Hlast]. apply andb_true_iff in Hm. destruct Hm as [Hm Htot].
     apply andb_true_iff in Hm. destruct Hm as [Hm Hfr]. apply andb_true_iff in Hm. destruct Hm as [Hm Hrk].
     apply andb_true_iff in Hm. destruct Hm as [Hm Hex]. apply andb_true_iff in Hm. destruct Hm as [Hi Hh].
     apply N.ltb_lt in Hi. apply N.ltb_lt in Hex. apply N.ltb_lt in Hrk. apply N.eqb_eq in Htot.
     destruct (header_roundtrip h Hd Hh) as [hb [Ehb Hhdec]].
     exists (enc_longlong i ++ hb ++ enc_shortstr ex ++ enc_shortstr rk ++ flat_map (enc_frame fe) body).
-    split; [unfold enc_message; cbn [msg_id msg_header msg_exchange msg_rk msg_body]; rewrite Ehb; reflexivity|].
-    intros rest. unfold dec_message. repeat rewrite <- app_assoc.
+    split; [unfold enc_message_core; cbn [msg_id msg_header msg_exchange msg_rk msg_body]; rewrite Ehb; reflexivity|].
+    intros rest. unfold dec_message_core. repeat rewrite <- app_assoc.
     rewrite dec_longlong_enc by exact Hi. cbn [bind fst snd].
     rewrite Hhdec. cbn [bind fst snd].
     rewrite dec_shortstr_enc by exact Hex. cbn [bind fst snd].
@@ -358,5 +358,46 @@ Section RecordRT.
     - exact Hlast.
     - rewrite N.add_0_l. exact Htot.
     - rewrite app_length. pose proof (flat_map_length_ge body). lia.
+  Qed.
+
+  Lemma with_count_id : forall m c, with_count (with_count m 0) c = with_count m c.
+  Proof. intros. reflexivity. Qed.
+  Lemma with_count_self : forall m, with_count m (msg_count m) = m.
+  Proof. intros []. reflexivity. Qed.
+
+  (* writer and reader of the same version (both with the delivery-count trailer, or both without):
+     the stored record comes back, delivery count included *)
+  Theorem message_roundtrip : forall t m,
+    wf_props_desc pf pr pw = true -> wf_message rd wr d pf t m = true ->
+    exists b, enc_message fe wr d pf pw t m = Some b /\
+              forall rest, dec_message st fa fe rd d pf pr t (b ++ rest) = Ok (m, rest).
+  Proof.
+    intros t m Hd Hm. unfold wf_message in Hm. apply andb_true_iff in Hm. destruct Hm as [Hcore Hc].
+    destruct (message_core_roundtrip m Hd Hcore) as [b [Eb Hdec]].
+    exists (b ++ (if t then enc_long (msg_count m) else [])).
+    split; [unfold enc_message; rewrite Eb; reflexivity|].
+    intros rest. unfold dec_message. rewrite <- app_assoc. rewrite Hdec. cbn [bind fst snd].
+    destruct t; cbn [andb].
+    - apply N.ltb_lt in Hc.
+      assert (L : (4 <=? blen (enc_long (msg_count m) ++ rest)) = true).
+      { apply N.leb_le. rewrite blen_app. unfold blen at 1, enc_long. rewrite length_be_enc. lia. }
+      rewrite L. rewrite dec_long_enc by exact Hc. cbn [bind fst snd].
+      rewrite with_count_id, with_count_self. reflexivity.
+    - apply N.eqb_eq in Hc. cbn [app]. rewrite <- Hc. rewrite with_count_self. reflexivity.
+  Qed.
+
+  (* backward compatibility: a record written WITHOUT the trailer (by the code before it existed) is read by the
+     code that expects it as the same message with delivery count 0, whenever fewer than 4 bytes follow *)
+  Theorem message_legacy_record : forall m,
+    wf_props_desc pf pr pw = true -> wf_message rd wr d pf false m = true ->
+    exists b, enc_message fe wr d pf pw false m = Some b /\
+              forall rest, blen rest < 4 -> dec_message st fa fe rd d pf pr true (b ++ rest) = Ok (m, rest).
+  Proof.
+    intros m Hd Hm. unfold wf_message in Hm. apply andb_true_iff in Hm. destruct Hm as [Hcore Hc]. apply N.eqb_eq in Hc.
+    destruct (message_core_roundtrip m Hd Hcore) as [b [Eb Hdec]].
+    exists (b ++ []). split; [unfold enc_message; rewrite Eb; reflexivity|].
+    intros rest Hr. unfold dec_message. rewrite app_nil_r. rewrite Hdec. cbn [bind fst snd andb].
+    destruct (N.leb_spec 4 (blen rest)) as [L|L]; [lia|].
+    rewrite <- Hc. rewrite with_count_self. reflexivity.
   Qed.
 End RecordRT.
